@@ -432,8 +432,16 @@ var pcsSmall = []peerCfg{
 	{name: "v12+l3/L1/p3", voters: []uint64{1, 2}, learner: []uint64{3}, leader: 1, pending: []uint64{3}},
 }
 
-func newSmall(nIDs int, npc int, sizes []int64, points []string) *model {
-	m := &model{pcs: pcsSmall[:npc], stores: []uint64{1, 2, 3}}
+func newSmall(nIDs int, npc int, sizes []int64, points []string, pick ...int) *model {
+	pcs := pcsSmall[:npc]
+	if len(pick) > 0 {
+		pcs = nil
+		for _, i := range pick {
+			pcs = append(pcs, pcsSmall[i])
+		}
+		npc = len(pcs)
+	}
+	m := &model{pcs: pcs, stores: []uint64{1, 2, 3}}
 	m.probes = append([]string{""}, points...)
 	m.probes = append(m.probes, "a5", "zz")
 	sort.Strings(m.probes)
@@ -509,13 +517,15 @@ func main() {
 	hist.Main(&hist.Config{
 		Property: "C07",
 		Scopes: []*hist.Scope{
-			{Name: "2ids-2points", Tiers: "quick", Depth: 3, NewModel: func() hist.Model { return newSmall(2, 5, []int64{1, 10}, []string{"a", "b"}) }},
-			{Name: "3ids-3points", Tiers: "quick", Depth: 2, NewModel: func() hist.Model { return newSmall(3, 5, []int64{1, 10}, []string{"a", "b", "c"}) }},
+			{Name: "2ids-2points", Tiers: "quick", Depth: 2, NewModel: func() hist.Model { return newSmall(2, 6, []int64{1, 10}, []string{"a", "b"}) }},
+			{Name: "2ids-2points/3", Tiers: "quick", Depth: 3, NewModel: func() hist.Model { return newSmall(2, 0, []int64{1, 10}, []string{"a", "b"}, 0, 1, 5) }},
+			{Name: "2ids-2points/6cfg@3", Tiers: "thorough", Depth: 3, NewModel: func() hist.Model { return newSmall(2, 6, []int64{1, 10}, []string{"a", "b"}) }},
+			{Name: "3ids-3points", Tiers: "quick", Depth: 2, NewModel: func() hist.Model { return newSmall(3, 6, []int64{1, 10}, []string{"a", "b", "c"}) }},
 			{Name: "3ids-3points/3", Tiers: "quick", Depth: 3, NewModel: func() hist.Model { return newSmall(3, 2, []int64{1}, []string{"a", "b", "c"}) }},
 			{Name: "chain140", Tiers: "quick", Depth: 2, NewModel: func() hist.Model { return newLarge() }},
 			{Name: "resize", Tiers: "quick", Depth: 3, NewModel: func() hist.Model { return newResize() }},
 			{Name: "resize@4", Tiers: "thorough", Depth: 4, NewModel: func() hist.Model { return newResize() }},
-			{Name: "4ids-4points", Tiers: "thorough", Depth: 4, NewModel: func() hist.Model { return newSmall(4, 5, []int64{0, 1, 10}, []string{"a", "b", "c", "d"}) }},
+			{Name: "4ids-4points", Tiers: "thorough", Depth: 4, NewModel: func() hist.Model { return newSmall(4, 6, []int64{0, 1, 10}, []string{"a", "b", "c", "d"}) }},
 			{Name: "chain140@3", Tiers: "thorough", Depth: 3, NewModel: func() hist.Model { return newLarge() }},
 		},
 		Rule:        "breadth-first over all put/remove sequences of the region alphabet (ids x ranges over the key points incl. unbounded ends and ranges swallowing neighbours x peer/leader/pending configurations x sizes); states deduplicated by the sorted region list; after every operation every query is compared with a linear scan and every outcome of the random picks is enumerated",
